@@ -124,12 +124,14 @@ def chunks {α : Type} (k : Nat) (l : List α) : List (List α) :=
     | fuel + 1, l => l.take k :: go fuel (l.drop k)
   go l.length l
 
+/-- one run of adjacent operands: a single operand stays a leaf, several are partially merged -/
+def partTree (deep : Bool) (part : List Bytes) : MTree :=
+  match part with
+  | [b] => MTree.leaf b
+  | bs => if deep then MTree.node [MTree.node (bs.map MTree.leaf)] else MTree.node (bs.map MTree.leaf)
+
 def chunkGrouping (k1 k2 : Nat) (deep : Bool) : Grouping := fun _ ops =>
-  (chunks k1 ops).map (fun grp =>
-    (chunks k2 grp).map (fun part =>
-      match part with
-      | [b] => MTree.leaf b
-      | bs => if deep then MTree.node [MTree.node (bs.map MTree.leaf)] else MTree.node (bs.map MTree.leaf)))
+  (chunks k1 ops).map (fun grp => (chunks k2 grp).map (partTree deep))
 
 /-! ### counters and threshold search (all three index types) -/
 
@@ -184,43 +186,37 @@ def findThreshold (num k size : Nat) : Nat := num * size / 2 ^ k
 /-- a colour is identified with its id set (recorded assumption: `compute_color`, xxh3 of the ids, is
 injective on the id sets that occur; the code asserts it) -/
 abbrev Color := List Nat
-/-- `Colors`: colour ↦ refcount (the id set of a colour is its key) -/
-abbrev Colors := List (Color × Nat)
+/-- `Colors` = `HashMap<Color, (ids, refcount)>`: colour ↦ refcount, `0` = not in the map (the code
+inserts at 1 and removes an entry when its count reaches 0; the id set of a colour is its key) -/
+abbrev Colors := Color → Nat
 /-- `HashToColor`: hash ↦ colour -/
 abbrev H2C := List (Nat × Color)
 
+def Colors.empty : Colors := fun _ => 0
+
 /-- `entry(color).and_modify(|e| e.1 += 1).or_insert((ids, 1))` -/
-def Colors.bump : Colors → Color → Colors
-  | [], col => [(col, 1)]
-  | (k, n) :: t, col => if k = col then (k, n + 1) :: t else (k, n) :: Colors.bump t col
+def Colors.bump (cs : Colors) (col : Color) : Colors := fun c => if c = col then cs c + 1 else cs c
 
 /-- `colors[color].1 -= 1; if == 0 { remove }` -/
-def Colors.release : Colors → Color → Colors
-  | [], _ => []
-  | (k, n) :: t, col => if k = col then (if n - 1 = 0 then t else (k, n - 1) :: t) else (k, n) :: Colors.release t col
-
-def Colors.count (cs : Colors) (col : Color) : Nat := (cs.lookup col).getD 0
+def Colors.release (cs : Colors) (col : Color) : Colors := fun c => if c = col then cs c - 1 else cs c
 
 /-- `Colors::indices(color)`; `none` = the `unwrap()` panic on an unknown colour -/
 def Colors.indices (cs : Colors) (col : Color) : Option (List Nat) :=
-  match cs.lookup col with
-  | some _ => some col
-  | none => none
+  if cs col = 0 then none else some col
 
 /-- `Colors::update(current_color, new_idxs)`; `none` = the `unimplemented!` panic when the current
 colour does not exist -/
 def Colors.update (cs : Colors) (cur : Option Color) (new : List Nat) : Option (Colors × Color) :=
   match cur with
   | some color =>
-    match cs.lookup color with
-    | none => none
-    | some _ =>
+    if cs color = 0 then none
+    else
       let toAdd := new.filter (fun i => !color.contains i)
       if toAdd.isEmpty then some (cs.bump color, color)
       else
         let idxs := insertAll color toAdd
-        let cs := if idxs ≠ color then cs.release color else cs
-        some (cs.bump idxs, idxs)
+        let cs' := if idxs ≠ color then cs.release color else cs
+        some (cs'.bump idxs, idxs)
   | none =>
     let idxs := insertAll [] new
     some (cs.bump idxs, idxs)
@@ -232,34 +228,34 @@ def H2C.insert : H2C → Nat → Color → H2C
   | [], h, col => [(h, col)]
   | (k, v) :: t, h, col => if k = h then (k, col) :: t else (k, v) :: H2C.insert t h col
 
-/-- `HashToColor::add_to(colors, dataset_id, matched_hashes)`: one colour threaded through the hashes -/
-def addTo (m : H2C) (cs : Colors) (d : Nat) (hashes : List Nat) : Option (H2C × Colors) :=
-  let rec go (m : H2C) (cs : Colors) (color : Option Color) : List Nat → Option (H2C × Colors)
-    | [] => some (m, cs)
-    | h :: t =>
-      match cs.update color [d] with
-      | none => none
-      | some (cs', col) => go (m.insert h col) cs' (some col) t
-  go m cs none hashes
+/-- the loop of `add_to`: one colour threaded through the hashes -/
+def addToGo (d : Nat) (m : H2C) (cs : Colors) (color : Option Color) : List Nat → Option (H2C × Colors)
+  | [] => some (m, cs)
+  | h :: t =>
+    match cs.update color [d] with
+    | none => none
+    | some r => addToGo d (m.insert h r.2) r.1 (some r.2) t
 
-/-- body of `reduce_hashes_colors` for one entry of the smaller map -/
+/-- `HashToColor::add_to(colors, dataset_id, matched_hashes)` -/
+def addTo (m : H2C) (cs : Colors) (d : Nat) (hashes : List Nat) : Option (H2C × Colors) :=
+  addToGo d m cs none hashes
+
+/-- body of `reduce_hashes_colors` for one entry `(hash, color)` of the smaller map -/
 def reduceEntry (smallColors : Colors) (acc : H2C × Colors) (e : Nat × Color) : Option (H2C × Colors) :=
-  let (hash, color) := e
-  let (large, largeColors) := acc
-  match smallColors.indices color with
+  match smallColors.indices e.2 with
   | none => none
   | some ids =>
-    match large.get hash with
+    match acc.1.get e.1 with
     | some entry =>
-      match largeColors.update (some entry) ids with
+      match acc.2.update (some entry) ids with
       | none => none
-      | some (cs', newColor) => some (large.insert hash newColor, cs')
+      | some r => some (acc.1.insert e.1 r.2, r.1)
     | none =>
-      match largeColors.update none ids with
+      match acc.2.update none ids with
       | none => none
-      | some (cs', newColor) =>
-        if newColor ≠ color then none   -- assert_eq!(new_color, color)
-        else some (large.insert hash newColor, cs')
+      | some r =>
+        if r.2 ≠ e.2 then none   -- assert_eq!(new_color, color)
+        else some (acc.1.insert e.1 r.2, r.1)
 
 def foldOpt {α β : Type} (f : α → β → Option α) : α → List β → Option α
   | a, [] => some a
@@ -269,13 +265,13 @@ def foldOpt {α β : Type} (f : α → β → Option α) : α → List β → Op
 
 /-- `HashToColor::reduce_hashes_colors(a, b)`: fold the smaller map into the larger -/
 def reduceHC (a b : H2C × Colors) : Option (H2C × Colors) :=
-  let (small, large) := if a.1.length > b.1.length then (b, a) else (a, b)
-  foldOpt (reduceEntry small.2) large small.1
+  if a.1.length > b.1.length then foldOpt (reduceEntry b.2) a b.1
+  else foldOpt (reduceEntry a.2) b a.1
 
 /-- mem `map_hashes_colors` without queries: `None` for an empty sketch -/
 def memLeaf (d : Nat) (hs : List Nat) : Option (Option (H2C × Colors)) :=
   if hs.isEmpty then some none
-  else match addTo [] [] d hs with
+  else match addTo [] Colors.empty d hs with
     | none => none
     | some r => some (some r)
 
@@ -288,11 +284,11 @@ inductive RTree where
 
 /-- evaluate a reduction tree; `none` = a panic somewhere -/
 def RTree.eval (C : List (List Nat)) : RTree → Option (H2C × Colors)
-  | .ident => some ([], [])
+  | .ident => some ([], Colors.empty)
   | .leaf d =>
     match memLeaf d (C.getD d []) with
     | none => none
-    | some none => some ([], [])      -- filtered out by `filter_map`: contributes nothing
+    | some none => some ([], Colors.empty)      -- filtered out by `filter_map`: contributes nothing
     | some (some r) => some r
   | .node l r =>
     match l.eval C, r.eval C with
